@@ -311,3 +311,37 @@ def q__run_mapping(ev, state, node):
 @method('Proc', 'terminate')
 def m_terminate(ev, state, node, recv, ref):
     return NONEVAL
+
+
+# ---- what a file receives (C20: CommandLog.write_log) ------------------------------------------
+from . import prims as _prims  # noqa: E402
+
+
+def _m_file_write(ev, state, node, recv):
+    """out_file.write(text): ghost `unsafe_writes` counts writes of text that is not sanitised"""
+    v = ev.eval(state, node.args[0])
+    ref, cur = _ghost_get(state, 'unsafe_writes')
+    if ref is not None:
+        if v.ty == T.OPAQUE:
+            safe = SANITIZED(v.term)
+        elif v.meta and v.meta[0] == 'const':
+            safe = z3.BoolVal(True)
+        else:
+            safe = z3.BoolVal(False)
+        write_ref(state, ref, SymVal(T.INT, cur.term + z3.If(safe, 0, 1)))
+    return NONEVAL
+
+
+_prims.OPAQUE_METHODS.setdefault('write', _m_file_write)
+
+
+def _m_str_join(ev, state, node, recv):
+    """'sep'.join(xs): sanitised iff xs is (the separator is a literal)"""
+    v = ev.eval(state, node.args[0])
+    r = fresh(T.OPAQUE, 'joined')
+    if v.ty == T.OPAQUE:
+        state.assume(SANITIZED(r.term) == SANITIZED(v.term))
+    return r
+
+
+_prims.NAME_METHODS.setdefault('join', _m_str_join)
